@@ -333,9 +333,10 @@ def main(argv=None):
         print(f"  counter {name} = {val}")
     for name, vals in sorted(sets.items()):
         print(f"  distinct {name} = {len(vals)}")
-    for mech, hits in sorted(known_hits.items()):
-        entry = open_mechs[mech]
-        print(f"KNOWN-FINDING: property={pid} {entry.get('title', mech)} ({len(hits)} hits)")
+    # one line per listed open finding of this property, whether or not this run reproduced it
+    for mech, entry in sorted(open_mechs.items()):
+        hits = known_hits.get(mech, [])
+        print(f"KNOWN-FINDING: property={pid} {entry.get('title', mech)} ({len(hits)} hits in this run)")
     if new_violations:
         mech_counts = {}
         for _case, vio in new_violations:
